@@ -298,6 +298,11 @@ func judgeH1(r *hk.Run, cs *Case, res *Result) {
 			r.Fail(hk.Failure{Sig: "expected-clean-body:" + sh, What: "the response is complete (" + expectWhy(cs) + ") but reading it ended with: " + res.BodyErr, Input: cs, Got: res.BodyErr, Want: "a clean end of the body"})
 		}
 	}
+	// "never spins": one call may dial again for a reused connection that turned out dead, for a digest
+	// re-send, for redirects - not without bound.  The peers count the connections they accepted.
+	if bound := dialBound(cs); res.Conns > bound {
+		r.Fail(hk.Failure{Sig: "redial-loop:" + sh, What: fmt.Sprintf("%d connections were opened for one call (bound %d): the request is sent again and again", res.Conns, bound), Input: cs, Got: res.Conns, Want: bound})
+	}
 	if res.HasChain && res.ChainNil {
 		r.Fail(hk.Failure{Sig: "nil-reader:" + sh, What: "a reader in the body stack is nil: " + strings.Join(res.Chain, ">"), Input: cs, Got: res.Chain})
 	}
@@ -509,4 +514,15 @@ func expectWhy(cs *Case) string {
 		return "a 204/304/HEAD response has no body whatever Transfer-Encoding says: nothing to wait for on the open connection"
 	}
 	return cs.Shape
+}
+
+func dialBound(cs *Case) int {
+	b := 2 + cs.Pre // a fresh connection per exchange at worst, one retry
+	if cs.Opts.Digest {
+		b += 2
+	}
+	if len(cs.Rounds) > 0 && bytes.Contains(bytes.ToLower(cs.Rounds[len(cs.Rounds)-1].Data), []byte("location")) {
+		b += 11 // net/http follows up to 10 redirects
+	}
+	return b
 }
